@@ -28,6 +28,12 @@ func main() {
 		// shards) then behave the same in every process; and no collection
 		// inside a run (workers collect only between runs, at fixed points)
 		runtime.GOMAXPROCS(1)
+		// a few workers present another P count to the library (code that
+		// sizes things by GOMAXPROCS); the simulator's own logic does not
+		// depend on it
+		if n, err := strconv.Atoi(os.Getenv("VERIF_PROCS")); err == nil && n >= 1 && n <= 8 {
+			runtime.GOMAXPROCS(n)
+		}
 		debug.SetGCPercent(-1)
 		debug.SetMemoryLimit(3 << 30)
 	}
@@ -90,6 +96,7 @@ type WorkerResult struct {
 	Failure  *kit.Trace             `json:"failure,omitempty"`
 	FailN    int64                  `json:"fail_n"`
 	Arch     string                 `json:"goarch"`
+	Procs    int                    `json:"gomaxprocs"`
 	Stride   int64                  `json:"stride"`
 	Known    map[string]*KnownHit   `json:"known,omitempty"`
 	Samples  []*kit.Trace           `json:"samples,omitempty"`
@@ -134,7 +141,7 @@ func cmdWork(args []string) int {
 		}
 	}
 	st := kit.NewStats()
-	res := &WorkerResult{Property: *prop, Seed: *seed, First: *start, Stride: *stride, Arch: runtime.GOARCH, Known: map[string]*KnownHit{}}
+	res := &WorkerResult{Property: *prop, Seed: *seed, First: *start, Stride: *stride, Arch: runtime.GOARCH, Procs: runtime.GOMAXPROCS(0), Known: map[string]*KnownHit{}}
 	t0 := time.Now()
 	sigs := map[uint64]struct{}{}
 	shift := uint(0)
